@@ -103,20 +103,19 @@ void HttpServer::serve(Socket client)
 				if (!response.hasHeader("Cache-Control"))
 					response.setHeader("Cache-Control", "max-age=60, public");
 				
-				if (request.hasHeader("Range"))
+				String range = request.header("Range");
+				Array<String> parts;
+				if (range.startsWith("bytes=") && !range.contains(',')) // no multiple ranges
+					parts = range.substr(6).split('-');
+				if (parts.length() == 2)
 				{
-					String range = request.header("Range");
-					if (range.startsWith("bytes=") && !range.contains(',')) // no multiple ranges
-					{
-						Array<String> parts = range.substr(6).split('-');
-						int begin = parts[0];
-						int end = parts[1];
-						response.setCode(206);
-						response.setHeader("Content-Range", "+");
-						response.putFile(file.path(), begin, end);
-					}
+					int begin = parts[0];
+					int end = parts[1];
+					response.setCode(206);
+					response.setHeader("Content-Range", "+");
+					response.putFile(file.path(), begin, end);
 				}
-				else
+				else // no Range header, or one that is not understood and therefore ignored
 					response.putFile(file.path());
 
 				if (response.hasHeader("Content-Range") && response.header("Content-Range").contains('*'))
